@@ -380,11 +380,16 @@ def _legacy_tables(E: Engine, rep: Report) -> None:
             written.add(n.slice.value)
     oh = E.fn("pulser.json.coders.PulserDecoder.object_hook")
     read = set()
-    for n in ast.walk(oh.node):
-        if isinstance(n, ast.If) and "Sequence" in norm(n.test):
-            for s in ast.walk(ast.Module(body=n.body, type_ignores=[])):
-                if isinstance(s, ast.Subscript) and isinstance(s.value, ast.Name) and s.value.id == "obj" and isinstance(s.slice, ast.Constant) and not s.slice.value.startswith("__"):
-                    read.add(s.slice.value)
+    from .. import sym as _sym
+    from .symutil import S as _S, is_ as _is
+
+    for l in _S(E, oh, inline=False).log:
+        if not any(_is(x, "'Sequence' in Q_n") is not None for x in _sym.conj_of(l.cond)):
+            continue
+        for t in (l.target, l.value) + tuple(l.loops):
+            for x in _sym.subterms(t) if t is not None else ():
+                if x[0] == "idx" and x[1] == ("name", "obj") and x[2][0] == "const" and isinstance(x[2][1], str) and not x[2][1].startswith("__"):
+                    read.add(x[2][1])
     rep.check(read <= written and bool(read), "LEGACY-TABLE", "Sequence._to_dict|keys-read⊆keys-written", f"decoder reads {sorted(read)}, encoder writes {sorted(written)}", f"PulserDecoder reads {sorted(read - written)} which Sequence._to_dict does not write", E.where(oh))
     # obj_to_dict keys <-> decoder
     otd = E.fn("pulser.json.utils.obj_to_dict")
